@@ -76,9 +76,10 @@ def corpus_cases(pid):
     return out
 
 
-def vm_crosscheck(ctx, nsample):
+def vm_crosscheck(ctx, nsample, log=None):
     """re-evaluate a sample of the extracted model's calls inside Coq (vm_compute)"""
-    log = ctx._model.log if ctx._model else []
+    if log is None:
+        log = ctx._model.log if ctx._model else []
     if not log:
         return {"checked": 0, "ok": True}
     rng = random.Random(ctx.seed)
@@ -102,6 +103,81 @@ def vm_crosscheck(ctx, nsample):
     shutil.rmtree(d, ignore_errors=True)
     ok = rc == 0 and "= 0%nat" in out.replace("\n", " ")
     return {"checked": len(sample), "ok": ok, "output": out[-300:] if not ok else ""}
+
+
+def _explore(modname, tier, seed, shard, nshards):
+    """runs the cases i with i % nshards == shard of the property's stream (known-finding witnesses, corpus,
+    generated cases -- every worker generates the same stream from the same seed); returns plain data"""
+    import importlib
+    import itertools
+    mod = importlib.import_module(modname)
+    pid = mod.PID
+    ctx = Ctx(pid, tier, seed)
+    known = [k for k in load_known() if k["property"] == pid]
+    out = {"evaluations": 0, "seen": set(), "nontrivial": set(), "samples": [], "k_disagree": [], "oracle_fail": [],
+           "kf_hits": {}, "error": None}
+    try:
+        stream = []
+        for k in known:
+            if "witness" in k:
+                c = ser.from_j(k["witness"])
+                c["_known"] = k["id"]
+                c["_status"] = k.get("status", "open")
+                stream.append(c)
+        stream += corpus_cases(pid)
+        for idx, case in enumerate(itertools.chain(stream, mod.cases(ctx))):
+            if idx % nshards != shard:
+                continue
+            h = ser.case_hash({k: v for k, v in case.items() if not k.startswith("_")})
+            try:
+                fails = mod.check(ctx, case)
+            except Exception as exc:  # harness bug or model crash: report, do not hide
+                fails = [Fail(kind="K", what="harness exception: %r" % (exc,), trace=traceback.format_exc()[-1500:])]
+            out["evaluations"] += 1
+            if h not in out["seen"]:
+                out["seen"].add(h)
+                try:
+                    if mod.nontrivial(case):
+                        out["nontrivial"].add(h)
+                except Exception:
+                    pass
+            if len(out["samples"]) < 4 and not case.get("_known"):
+                out["samples"].append(ser.to_j({k: v for k, v in case.items() if not k.startswith("_")}))
+            plain = {k: v for k, v in case.items() if not k.startswith("_")}
+            if case.get("_known"):
+                kid = case["_known"]
+                if fails and case["_status"] == "open":
+                    out["kf_hits"][kid] = out["kf_hits"].get(kid, 0) + 1
+                elif fails:
+                    for f in fails:
+                        (out["k_disagree"] if f.get("kind") == "K" else out["oracle_fail"]).append((plain, dict(f)))
+                continue
+            for f in fails:
+                cls = None
+                for k in known:
+                    if k.get("status", "open") != "open" or "class" not in k:
+                        continue
+                    from . import kf
+                    if kf.CLASSES[k["class"]](case, f):
+                        cls = k["id"]
+                        break
+                if cls:
+                    out["kf_hits"][cls] = out["kf_hits"].get(cls, 0) + 1
+                elif f.get("kind") == "K":
+                    out["k_disagree"].append((plain, dict(f)))
+                else:
+                    out["oracle_fail"].append((plain, dict(f)))
+    except Exception as exc:
+        out["error"] = (repr(exc), traceback.format_exc()[-3000:])
+    out.update({"k_cases": ctx.k_cases, "k_agreed": ctx.k_agreed, "set_aside": ctx.set_aside, "dist": ctx.dist,
+                "notes": ctx.notes[:20], "model_calls": ctx._model.calls if ctx._model else 0,
+                "model_log": (ctx._model.log[:: max(1, len(ctx._model.log) // 300)] if ctx._model else [])})
+    if ctx._model is not None:
+        ctx._model.close()
+    # keep the failure lists small and picklable
+    out["k_disagree"] = [(ser.to_j(c), ser.to_j(f)) for c, f in out["k_disagree"][:20]]
+    out["oracle_fail"] = [(ser.to_j(c), ser.to_j(f)) for c, f in out["oracle_fail"][:20]]
+    return out
 
 
 def run_property(mod, tier, seed, replay=None):
@@ -132,6 +208,8 @@ def run_property(mod, tier, seed, replay=None):
     k_disagree = []
     oracle_fail = []
     kf_hits = {}
+    model_log = []
+    model_calls = 0
     if ok:
         if replay:
             case = ser.from_j(json.load(open(replay)))
@@ -143,69 +221,51 @@ def run_property(mod, tier, seed, replay=None):
             if not fails:
                 print("  no failure on the current tree")
             return 1 if fails else 0
+        jobs = int(os.environ.get("VERIF_JOBS", "0") or 0)
+        if jobs <= 0:
+            jobs = min(16, os.cpu_count() or 1) if tier == "thorough" else 1
+        if getattr(mod, "SERIAL", False):
+            jobs = 1
         try:
-            stream = []
-            for k in known:
-                if "witness" in k:
-                    c = ser.from_j(k["witness"])
-                    c["_known"] = k["id"]
-                    c["_status"] = k.get("status", "open")
-                    stream.append(c)
-            stream += corpus_cases(pid)
-            import itertools
-            for case in itertools.chain(stream, mod.cases(ctx)):
-                h = ser.case_hash({k: v for k, v in case.items() if not k.startswith("_")})
-                try:
-                    fails = mod.check(ctx, case)
-                except Exception as exc:  # harness bug or model crash: report, do not hide
-                    fails = [Fail(kind="K", what="harness exception: %r" % (exc,), trace=traceback.format_exc()[-1500:])]
-                ctx.evaluations += 1
-                if h not in seen:
-                    seen.add(h)
-                    try:
-                        if mod.nontrivial(case):
-                            nontrivial.add(h)
-                    except Exception:
-                        pass
-                if len(samples) < 4 and not case.get("_known"):
-                    samples.append(ser.to_j({k: v for k, v in case.items() if not k.startswith("_")}))
-                if case.get("_known"):
-                    kid = case["_known"]
-                    if fails and case["_status"] == "open":
-                        kf_hits.setdefault(kid, 0)
-                        kf_hits[kid] += 1
-                    elif fails:
-                        for f in fails:
-                            (k_disagree if f.get("kind") == "K" else oracle_fail).append((case, f))
-                    continue
-                for f in fails:
-                    cls = None
-                    for k in known:
-                        if k.get("status", "open") != "open" or "class" not in k:
-                            continue
-                        from . import kf
-                        if kf.CLASSES[k["class"]](case, f):
-                            cls = k["id"]
-                            break
-                    if cls:
-                        kf_hits[cls] = kf_hits.get(cls, 0) + 1
-                    elif f.get("kind") == "K":
-                        k_disagree.append((case, f))
-                    else:
-                        oracle_fail.append((case, f))
+            if jobs == 1:
+                parts = [_explore(mod.__name__, tier, seed, 0, 1)]
+            else:
+                import multiprocessing
+                with multiprocessing.get_context("fork").Pool(jobs) as pool:
+                    parts = pool.starmap(_explore, [(mod.__name__, tier, seed, i, jobs) for i in range(jobs)])
+            for part in parts:
+                ctx.evaluations += part["evaluations"]
+                ctx.k_cases += part["k_cases"]
+                ctx.k_agreed += part["k_agreed"]
+                ctx.set_aside += part["set_aside"]
+                for k2, v in part["dist"].items():
+                    ctx.dist[k2] = ctx.dist.get(k2, 0) + v
+                ctx.notes += part["notes"]
+                seen |= part["seen"]
+                nontrivial |= part["nontrivial"]
+                samples += part["samples"]
+                k_disagree += part["k_disagree"]
+                oracle_fail += part["oracle_fail"]
+                for k2, v in part["kf_hits"].items():
+                    kf_hits[k2] = kf_hits.get(k2, 0) + v
+                model_log += part["model_log"]
+                model_calls += part["model_calls"]
+                if part["error"]:
+                    violations.append(({"kind": "harness", "message": part["error"][0], "trace": part["error"][1],
+                                        "theorem_or_correspondence": "harness for " + pid}, True))
+            samples = samples[:4]
         except Exception as exc:
             violations.append(({"kind": "harness", "message": repr(exc), "trace": traceback.format_exc()[-3000:],
                                 "theorem_or_correspondence": "harness for " + pid}, True))
     xc = {"checked": 0, "ok": True}
-    if ok and ctx._model is not None:
+    if ok and model_log:
         try:
-            xc = vm_crosscheck(ctx, 200 if tier == "thorough" else 25)
+            xc = vm_crosscheck(ctx, 200 if tier == "thorough" else 25, model_log)
         except Exception as exc:
             xc = {"checked": 0, "ok": False, "output": repr(exc)}
         if not xc["ok"]:
             violations.append(({"kind": "extraction", "message": "extracted model disagrees with vm_compute: %s" % xc.get("output"),
                                 "theorem_or_correspondence": "Extract.v / driver"}, True))
-        ctx._model.close()
     # ----- decision -----
     for case, f in oracle_fail[:5]:
         violations.append(({"kind": "property", "case": {k: v for k, v in case.items() if not k.startswith("_")}, "fail": f}, False))
@@ -252,7 +312,7 @@ def run_property(mod, tier, seed, replay=None):
             "extraction_crosscheck_vm_compute": xc,
             "coqchk": chk if chk is not None else "thorough tier only",
             "known_findings": kf_hits,
-            "model_calls": ctx._model.calls if ctx._model else 0,
+            "model_calls": model_calls,
             "exhaustive": bool(getattr(mod, "EXHAUSTIVE", False) and tier == "thorough"),
             "notes": ctx.notes[:20],
         },
